@@ -34,7 +34,15 @@ def run(ck):
     hs = [H('c14_eq_ord', cap=600, playback=True, meaning='== and partial_cmp depend only on (unix_time, nanoseconds), never None'),
           H('c03_plumb', cap=1500, meaning='from_timespec(t,ns,zone) and project(): instant and nanoseconds preserved, type = lookup result, fields = fields of t+offset, OutOfRange iff t+offset leaves the range'),
           H('c02_derive_ord_is_lexicographic', cap=600, playback=True, meaning='derive(Ord/Eq) of UtcDateTime is lexicographic on the field tuple')]
-    kprop.run_harnesses(ck, hs)
+    def on_fail(B, h):
+        if h.name == 'c03_plumb':
+            import c03
+            c03.replay_plumb(ck, B, h)
+        elif h.playback_ok:
+            kprop.playback_violation(ck, B, h)
+        else:
+            ck.inconclusive.append(f'{h.name} FAILED: {h.failed_checks[:4]} (no native replay; unresolved)')
+    kprop.run_harnesses(ck, hs, on_fail=on_fail)
     A = EngineA(ck, unwind={'from_timespec': 12})
     ex = A.ex
     E_ = A.mir.enums
@@ -68,22 +76,37 @@ def run(ck):
     err = r['$v']['Err'][0]
     A.claim('new:error_kind', AND(NOT(ok), NOT(ITE(valid, is_variant(err, E_, 'TzError', 'OutOfRange'), is_variant(err, E_, 'TzError', 'DateTime'), 'Bool'))), get=getv, replay=lambda m: None,
             meaning='invalid fields -> DateTime error; valid fields but instant out of range -> OutOfRange')
+    def rp_local(m):
+        tv, ov, nv = m.get('t', 0), m.get('off', 0), m.get('ns', 0)
+        cmd = f'dt_local {tv} {nv} {ov} 0 -'
+        w = tv + ov
+        for o in nat.both([cmd])[0]:
+            if o.startswith('panic'):
+                return f'from_timespec_and_local({tv},{nv},offset {ov}) panics', {'cmd': cmd, 'kind': 'local', 't': tv, 'off': ov, 'ns': nv}
+            inr = calref.MIN_T <= w <= calref.MAX_T
+            if o.startswith('ok') != inr:
+                return (f'from_timespec_and_local({tv},{nv},offset {ov}) -> {o.split()[0]} although unix_time + offset = {w} is {"inside" if inr else "outside"} the supported range', {'cmd': cmd, 'kind': 'local', 't': tv, 'off': ov, 'ns': nv})
+            if inr:
+                f_ = [int(x) for x in o.split()[1:10]]
+                if tuple(f_[:6]) != calref.gmtime(w)[:6] or f_[6] != nv or f_[7] != tv or f_[8] != ov:
+                    return (f'from_timespec_and_local({tv},{nv},offset {ov}) = fields {f_[:6]} unix {f_[7]}; the fields of t+offset are {calref.gmtime(w)[:6]}', {'cmd': cmd, 'kind': 'local', 't': tv, 'off': ov, 'ns': nv})
+        return None
     # from_timespec_and_local
     t = I('t', 'i64')
     rl = ex.call('DateTime::from_timespec_and_local', [t, ns, lt])
     w = ARI('+', t, off)
     g = ex.call('UtcDateTime::from_timespec', [w, ns], g=inrange(w, 'i64'))
     okl = CMP('=', rl['$d'], 0)
-    A.claim('local:err_iff_sum_overflows_or_gmtime_refuses', NOT(IFF(okl, AND(inrange(w, 'i64'), CMP('=', g['$d'], 0)))), get=[t, off, ns], replay=lambda m: None)
+    A.claim('local:err_iff_sum_overflows_or_gmtime_refuses', NOT(IFF(okl, AND(inrange(w, 'i64'), CMP('=', g['$d'], 0)))), get=[t, off, ns], replay=rp_local)
     fl = rl['$v']['Ok'][0]
     gf = g['$v']['Ok'][0]
     A.claim('local:fields_are_gmtime_of_t_plus_offset', AND(okl, NOT(AND(CMP('=', fl['unix_time'], t), veq(fl['local_time_type'], lt), *[CMP('=', fl[k], gf[k]) for k in ('year', 'month', 'month_day', 'hour', 'minute', 'second', 'nanoseconds')]))),
-            get=[t, off, ns], replay=lambda m: None, meaning='from_timespec_and_local: fields = from_timespec(t+offset) fields, unix_time = t, type copied (with C01: the invariant)')
-    A.claim('local:ok_iff_sum_in_range', NOT(IFF(okl, AND(CMP('<=', calref.MIN_T, w), CMP('<=', w, calref.MAX_T)))), get=[t, off, ns], replay=lambda m: None)
-    A.claim('local:err_is_out_of_range', AND(NOT(okl), NOT(is_variant(rl['$v']['Err'][0], E_, 'TzError', 'OutOfRange'))), replay=lambda m: None)
+            get=[t, off, ns], replay=rp_local, meaning='from_timespec_and_local: fields = from_timespec(t+offset) fields, unix_time = t, type copied (with C01: the invariant)')
+    A.claim('local:ok_iff_sum_in_range', NOT(IFF(okl, AND(CMP('<=', calref.MIN_T, w), CMP('<=', w, calref.MAX_T)))), get=[t, off, ns], replay=rp_local)
+    A.claim('local:err_is_out_of_range', AND(NOT(okl), NOT(is_variant(rl['$v']['Err'][0], E_, 'TzError', 'OutOfRange'))), replay=rp_local)
     # invariant through unix_time: unix_time(fields of result) = t + offset  (second < 60 there)
     ub = ex.call('unix_time', [fl['year'], fl['month'], fl['month_day'], fl['hour'], fl['minute'], fl['second']], g=okl, sigpart='(_1: i32, _2: u8')
-    A.claim('local:invariant_unix_time_of_fields', AND(okl, NOT(CMP('=', ub, w))), get=[t, off, ns], required=not quick, cap=(120 if quick else 1800), replay=lambda m: None,
+    A.claim('local:invariant_unix_time_of_fields', AND(okl, NOT(CMP('=', ub, w))), get=[t, off, ns], required=not quick, cap=(120 if quick else 1800), replay=rp_local,
             meaning='unix_time(fields) = unix_time + offset for values built by from_timespec_and_local (same query as C01.inverse_of_timegm through this constructor)')
     # getters
     A.claim('getters', AND(ok, NOT(AND(CMP('=', ex.call('DateTime::unix_time', [f], g=ok), f['unix_time']), veq(ex.call('DateTime::local_time_type', [f], g=ok), f['local_time_type'])))), replay=lambda m: None)
@@ -123,6 +146,13 @@ def replay(ck, case):
     c = case['case']
     out = nat.both([c['cmd']])[0]
     print(out)
+    if c.get('kind') == 'local':
+        w = c['t'] + c['off']
+        bad = any(o.startswith('panic') or (o.startswith('ok') != (calref.MIN_T <= w <= calref.MAX_T)) for o in out)
+        print('violates:', bad)
+        return 1 if bad else 0
+    if c.get('kind') == 'plumb':
+        return 1 if any(not o.startswith(c['want']) for o in out) else 0
     why = judge_dt_new(out[0], c['args'], c['off']) or judge_dt_new(out[1], c['args'], c['off'])
     print('violates:', why)
     return 1 if why else 0
